@@ -325,6 +325,19 @@ CHECKS["C06"]["text"] = CHECKS["C06"]["text"].replace(
     "not proved (partial):")
 CHECKS["C06"]["technique"] = ("Coq proofs (escape/unescape inversion; value- and record-level printer -> spec lexer -> spec parser = "
                               "content) + extracted grammar-based reader executed on the implementation's text")
+CHECKS["C10"]["text"] = CHECKS["C10"]["text"].replace(
+    "Document level (bundle map) for PROV-JSON and PROV-XML above value level: run, not proved (partial).",
+    "(5) record level for PROV-XML: XmlSpec.read_record of the element the model of the writer builds for a record (element "
+    "name, children in the order of sorted_attributes, one child per pair; tied to serialize_bundle on every run by a "
+    "per-record element correspondence) is the record — the children are in schema order for every attribute list, each is "
+    "read as its pair, a subtype element name gives back the prov:type it stands for. Bundle maps / bundleContent level: "
+    "run, not proved (partial).")
+CHECKS["C02"]["text"] = CHECKS["C02"]["text"].replace(
+    "The rest of element-tree assembly (nsmap, child order, bundles) is not modelled (partial).",
+    "The record loop is modelled (XmlRec.v: element name, child order of sorted_attributes, one child per pair) and tied to "
+    "serialize_bundle by comparing, per record, the element lxml holds with the element the model builds; that the "
+    "children are in schema order and are read back as the record by the specification reader is proved (C10_xml_record). "
+    "nsmap, bundles and the library's reader at record level are not modelled (partial).")
 
 
 def main():
